@@ -3,6 +3,7 @@ from __future__ import annotations
 
 import ast
 import copy
+import itertools
 import re
 from typing import Dict, List, Optional, Set, Tuple
 
@@ -210,6 +211,17 @@ def check_types_and_keys(ctx, rep):
     if len(lits) < 60:
         raise AnalysisError(f"only {len(lits)} typed dict literals found in the CLI")
     rep.analysed['typed_literals'] = len(lits)
+    # class-name strings stored later: X['type' | 'transform' | 'distribution'] = '<const>'
+    for m in cli_modules(ctx):
+        for st in ast.walk(m.tree):
+            if isinstance(st, ast.Assign) and len(st.targets) == 1 and isinstance(st.targets[0], ast.Subscript) and isinstance(st.targets[0].slice, ast.Constant) \
+                    and st.targets[0].slice.value in ('type', 'transform', 'distribution') and isinstance(st.value, ast.Constant) and isinstance(st.value.value, str):
+                sv = st.value.value
+                fn = enclosing_function(st)
+                okv = sv in readers.registered or readers.resolve_type(sv) is not None or (not sv.startswith(ctx.prog.package) and '.' in sv) \
+                    or (sv.startswith(ctx.prog.package) and ctx.prog.resolve(sv) is not None)
+                rep.check('C19.T', f"{m.name.split('.')[-1]}.{fn.name if fn else '<module>'}::store::{st.targets[0].slice.value}={sv}", okv, where(m, st), None,
+                          f"'{sv}' is stored as the {st.targets[0].slice.value} of an emitted object but is neither a registered class nor a resolvable path in the package")
     live = Liveness(ctx, readers)
     from sa.jsonkeys import const_key
     for m, fn, d, t, var in lits:
@@ -288,6 +300,77 @@ def jacobian_block(fn: ast.FunctionDef):
     return fn.body[start:end + 1]
 
 
+def jacobian_edit_table(ctx, m, fn):
+    """(clock, heights, coalescent) -> set of edits ('append'|'remove'|…, constant) of the list returned by create_jacobians that are executed"""
+    from sa.cfg import CFG
+    from props.c19_flow import Flow, specialised_reach, reach_from
+    flow = _flow(ctx)
+    cfg = CFG(fn)
+    var = None
+    for st in fn.body:
+        if isinstance(st, ast.Assign) and isinstance(st.value, ast.Call) and (dotted_name(st.value.func) or '').endswith('create_jacobians') and isinstance(st.targets[0], ast.Name):
+            var = st.targets[0].id
+    edits = []
+    for st in ast.walk(fn):
+        if isinstance(st, ast.Expr) and isinstance(st.value, ast.Call) and isinstance(st.value.func, ast.Attribute) and isinstance(st.value.func.value, ast.Name) \
+                and st.value.func.value.id == var:
+            a = st.value.args[-1] if st.value.args else None
+            edits.append((st, (st.value.func.attr, a.value if isinstance(a, ast.Constant) else ast.unparse(a) if a is not None else None)))
+        elif isinstance(st, (ast.Assign, ast.AugAssign)) and any(isinstance(t, ast.Name) and t.id == var for t in (st.targets if isinstance(st, ast.Assign) else [st.target])) \
+                and not (isinstance(st, ast.Assign) and isinstance(st.value, ast.Call) and (dotted_name(st.value.func) or '').endswith('create_jacobians')):
+            edits.append((st, ('assign', ast.unparse(st.value)[:60])))
+        elif isinstance(st, ast.Delete) and any(isinstance(t, ast.Subscript) and isinstance(t.value, ast.Name) and t.value.id == var for t in st.targets):
+            edits.append((st, ('del', ast.unparse(st)[:60])))
+    rows = {}
+    doms = [sorted(flow.fin[o].values, key=repr) for o in ('clock', 'heights', 'coalescent')]
+    by_id = {n.id: n for n in cfg.nodes}
+    for combo in itertools.product(*doms):
+        env = flow.env(m, dict(zip(('clock', 'heights', 'coalescent'), combo)), {}, {})
+        succ = specialised_reach(cfg, env)
+        live = reach_from(succ, [cfg.entry.id], by_id) | {cfg.entry.id}
+        rows[combo] = {ed for st, ed in edits if cfg.node_of(st).id in live}
+    from props.c19_flow import const_expr
+    pw = const_expr(ctx.prog.module(f"{CLI}.evolution"), ast.Name(id='COALESCENT_PIECEWISE', ctx=ast.Load()))
+    return {'rows': rows, 'n_edits': len(edits), 'piecewise': list(pw) if isinstance(pw, (list, tuple)) else []}
+
+
+_FLOW = {}
+
+
+def _flow(ctx):
+    from props.c19_flow import Flow
+    if id(ctx) not in _FLOW:
+        _FLOW[id(ctx)] = Flow(ctx)
+    return _FLOW[id(ctx)]
+
+
+def _flatten_concat(e):
+    """constants and variable names of a list built by literals, `+` and unpacking; (None, None) if anything else takes part"""
+    consts, names = [], []
+
+    def go(x):
+        if isinstance(x, ast.BinOp) and isinstance(x.op, ast.Add):
+            return go(x.left) and go(x.right)
+        if isinstance(x, (ast.List, ast.Tuple)):
+            for el in x.elts:
+                if isinstance(el, ast.Constant):
+                    consts.append(el.value)
+                elif isinstance(el, ast.Starred) and isinstance(el.value, ast.Name):
+                    names.append(el.value.id)
+                else:
+                    return False
+            return True
+        if isinstance(x, ast.Name):
+            names.append(x.id)
+            return True
+        if isinstance(x, ast.Call) and isinstance(x.func, ast.Name) and x.func.id == 'list' and len(x.args) == 1:
+            return go(x.args[0])
+        return False
+    if e is None or not go(e):
+        return None, None
+    return consts, names
+
+
 def check_jacobians(ctx, rep):
     builders = {}
     for modname, fname in ((f"{CLI}.advi", 'build_advi'), (f"{CLI}.hmc", 'build_hmc'), (f"{CLI}.mcmc", 'build_mcmc')):
@@ -297,6 +380,7 @@ def check_jacobians(ctx, rep):
             raise AnalysisError(f"{modname}.{fname} not found")
         builders[fname] = (m, fn, jacobian_block(fn))
     blocks = {}
+    tables = {}
     for fname, (m, fn, blk) in builders.items():
         W = where(m, fn)
         if blk is None:
@@ -315,18 +399,28 @@ def check_jacobians(ctx, rep):
         rep.check('C19.J', f"{fname}::collected-after-constraints-became-transforms", isinstance(arg0, ast.Name) and after_unconstrain, W, facts,
                   f"{fname}: create_jacobians must scan the whole specification after make_unconstrained / the variational model turned constrained parameters into "
                   f"TransformedParameters; otherwise their log-Jacobians are missing from the target")
-        has_tree = bool(re.search(r"if arg\.clock is not None and arg\.heights == 'ratio':\s*\n\s*jacobians_list\.append\('tree'\)", src))
-        rep.check('C19.J', f"{fname}::ratio-height-jacobian", has_tree, W, facts,
-                  f"{fname}: with a clock and ratio heights the tree model's node-height log-Jacobian ('tree') must be added exactly under that condition")
-        rem = bool(re.search(r"if arg\.coalescent in COALESCENT_PIECEWISE:\s*\n\s*jacobians_list\.remove\('coalescent\.theta'\)", src))
-        rep.check('C19.J', f"{fname}::no-jacobian-for-gmrf-on-log-scale", rem, W, facts,
-                  f"{fname}: for piecewise coalescents the smoothing prior is placed on log θ, so coalescent.theta's Jacobian must be removed (and only then)")
+        # which edits of the Jacobian list are executed under which option values (specialised CFG, every value of clock × heights × coalescent)
+        tables[fname] = jacobian_edit_table(ctx, m, fn)
+        tb = tables[fname]
+        piecewise = set(tb['piecewise'])
+        bad_tree = [e for e, row in tb['rows'].items() if (('append', 'tree') in row) != (e[0] is not None and e[1] == 'ratio')]
+        rep.check('C19.J', f"{fname}::ratio-height-jacobian", not bad_tree and tb['n_edits'] >= 2, W, {'wrong_under': [str(e) for e in bad_tree[:6]]},
+                  f"{fname}: the node-height log-Jacobian ('tree') must be added exactly when a clock is used with ratio heights; wrong under (clock, heights, coalescent) = "
+                  f"{bad_tree[:3]}")
+        bad_rem = [e for e, row in tb['rows'].items() if (('remove', 'coalescent.theta') in row) != (e[2] in piecewise)]
+        rep.check('C19.J', f"{fname}::no-jacobian-for-gmrf-on-log-scale", not bad_rem and tb['n_edits'] >= 2, W, {'wrong_under': [str(e) for e in bad_rem[:6]]},
+                  f"{fname}: for piecewise coalescents the smoothing prior is placed on log θ, so coalescent.theta's Jacobian must be removed, and only then; wrong under "
+                  f"{bad_rem[:3]}")
+        other = sorted({ed for row in tb['rows'].values() for ed in row} - {('append', 'tree'), ('remove', 'coalescent.theta')})
+        rep.check('C19.J', f"{fname}::no-other-edit-of-the-jacobian-list", not other, W, {'edits': [str(x) for x in other]},
+                  f"{fname}: the Jacobian list is edited in a way the other builders do not know: {other}")
         jj = blk[-1].value if isinstance(blk[-1], ast.Assign) else None
         ok = False
         if isinstance(jj, ast.Dict):
             dd = {k.value: v for k, v in zip(jj.keys, jj.values) if isinstance(k, ast.Constant)}
-            ok = isinstance(dd.get('type'), ast.Constant) and dd['type'].value == 'JointDistributionModel' and \
-                ast.unparse(dd.get('distributions')).replace('"', "'") == "['joint'] + jacobians_list"
+            consts, names = _flatten_concat(dd.get('distributions'))
+            jvar = blk[0].targets[0].id if isinstance(blk[0].targets[0], ast.Name) else None
+            ok = isinstance(dd.get('type'), ast.Constant) and dd['type'].value == 'JointDistributionModel' and consts == ['joint'] and names == [jvar]
         rep.check('C19.J', f"{fname}::joint-plus-each-jacobian-once", ok, W, facts,
                   f"{fname}: joint.jacobian must be the JointDistributionModel of ['joint'] + jacobians_list (constrained joint density plus each log-Jacobian once)")
         # the sampler / optimiser over unconstrained parameters is handed joint.jacobian
@@ -334,40 +428,267 @@ def check_jacobians(ctx, rep):
         ok = bool(hands) and all(c.args and isinstance(c.args[0], ast.Constant) and c.args[0].value == 'joint.jacobian' for c in hands)
         rep.check('C19.J', f"{fname}::target-is-joint.jacobian", ok, W, {'calls': [norm_text(c)[:80] for c in hands]},
                   f"{fname}: the algorithm working on unconstrained parameters must target 'joint.jacobian', not the constrained joint")
-    vals = {tuple(v) for v in blocks.values()}
     any_builder = list(builders.values())[0]
-    rep.check('C19.J', 'builders::jacobian-blocks-identical', len(vals) == 1 and len(blocks) == 3, where(any_builder[0], any_builder[1]), {k: v for k, v in blocks.items()},
-              "build_advi, build_hmc and build_mcmc assemble the Jacobian terms differently: one sub-command targets a different density than the others")
-    # create_jacobians itself
+    same = len(tables) == 3 and len({repr(sorted((str(k), sorted(map(str, v))) for k, v in t['rows'].items())) for t in tables.values()}) == 1
+    rep.check('C19.J', 'builders::jacobian-edits-agree', same, where(any_builder[0], any_builder[1]), None,
+              "build_advi, build_hmc and build_mcmc edit the Jacobian list under different option values: one sub-command targets a different density than the others")
+    # create_jacobians itself: decided on its CFG with the three atomic facts about a node as booleans
+    check_create_jacobians(ctx, rep)
+
+
+def _inline_helpers(module, fn):
+    """copy of fn in which calls to single-return helper functions of the same module (same argument names) are replaced by the returned expression"""
+    fn2 = copy.deepcopy(fn)
+
+    class T(ast.NodeTransformer):
+        def visit_Call(self, c):
+            self.generic_visit(c)
+            if isinstance(c.func, ast.Name) and c.func.id in module.functions and c.func.id != fn.name:
+                h = module.functions[c.func.id]
+                rets = [n for n in ast.walk(h) if isinstance(n, ast.Return)]
+                params = [a.arg for a in h.args.args]
+                if len(rets) == 1 and len(h.body) <= 2 and len(c.args) == len(params) and all(isinstance(a, ast.Name) and a.id == p for a, p in zip(c.args, params)):
+                    return copy.deepcopy(rets[0].value)
+            return c
+    fn2 = T().visit(fn2)
+    ast.fix_missing_locations(fn2)
+    for n in ast.walk(fn2):
+        for ch in ast.iter_child_nodes(n):
+            ch._parent = n
+    return fn2
+
+
+def check_create_jacobians(ctx, rep):
+    from sa.cfg import CFG
+    from props.c19_flow import Env, specialised_reach, reach_from
     jm = ctx.prog.module(f"{CLI}.jacobians")
-    cj = jm.functions.get('create_jacobians')
-    if cj is None:
+    cj0 = jm.functions.get('create_jacobians')
+    if cj0 is None:
         raise AnalysisError('create_jacobians not found')
-    W = where(jm, cj)
-    src = ast.unparse(cj)
-    rec_list = any(isinstance(n, ast.For) and any(isinstance(c, ast.Call) and isinstance(c.func, ast.Name) and c.func.id == 'create_jacobians' for c in ast.walk(n))
-                   for n in ast.walk(cj))
-    rec_values = 'dict_def.values()' in src and src.count('create_jacobians(') >= 3
+    W = where(jm, cj0)
+    cj = _inline_helpers(jm, cj0)
+    data = cj.args.args[0].arg
+    cfg = CFG(cj)
+    q = lambda e: ast.unparse(e).replace('"', "'")
+    # atoms
+    A_list, A_dict = f"isinstance({data}, list)", f"isinstance({data}, dict)"
+    atoms = {
+        'T': (f"{data}['type'] == 'TransformedParameter'", f"{data}.get('type') == 'TransformedParameter'", f"'type' in {data}"),
+        'F': (f"{data}['transform'] == 'torch.distributions.AffineTransform'",),
+        'S': (f"{data}['parameters']['scale'] == 1.0", f"{data}['parameters']['scale'] == 1"),
+    }
     appends = [c for c in ast.walk(cj) if isinstance(c, ast.Call) and isinstance(c.func, ast.Attribute) and c.func.attr == 'append']
-    once = len(appends) == 1 and ast.unparse(appends[0].args[0]).replace('"', "'") == "dict_def['id']"
-    rep.check('C19.J', 'create_jacobians::visits-every-nested-object-once', rec_list and rec_values and once, W, None,
-              "create_jacobians must recurse into every list element and every dict value and emit each TransformedParameter id exactly once")
-    # only unit-scale affine transforms are skipped
-    skip = [n for n in ast.walk(cj) if isinstance(n, ast.If) and isinstance(n.test, ast.UnaryOp) and isinstance(n.test.op, ast.Not)]
-    ok = False
-    if len(skip) == 1:
-        t = ast.unparse(skip[0].test.operand).replace('"', "'")
-        ok = "dict_def['transform'] == 'torch.distributions.AffineTransform'" in t and "dict_def['parameters']['scale'] == 1.0" in t and ' and ' in t
-    rep.check('C19.J', 'create_jacobians::skips-only-unit-scale-affine', ok, W, None,
-              "only AffineTransform with scale 1.0 (zero log-Jacobian) may be left out of the Jacobian list")
-    typ = any(isinstance(n, ast.Compare) and ast.unparse(n).replace('"', "'") == "dict_def['type'] == 'TransformedParameter'" for n in ast.walk(cj))
-    rep.check('C19.J', 'create_jacobians::matches-TransformedParameter', typ, W, None, "create_jacobians must select objects whose type is 'TransformedParameter'")
+    rec_calls = [c for c in ast.walk(cj) if isinstance(c, ast.Call) and isinstance(c.func, ast.Name) and c.func.id == 'create_jacobians']
+    loops_values = [n for n in ast.walk(cj) if isinstance(n, ast.For) and q(n.iter) == f"{data}.values()" and any(c in ast.walk(n) for c in rec_calls)]
+    loops_list = [n for n in ast.walk(cj) if isinstance(n, ast.For) and q(n.iter) == data and any(c in ast.walk(n) for c in rec_calls)]
+    if len(appends) != 1 or len(loops_values) != 1 or len(loops_list) != 1:
+        rep.bad('C19.J', 'create_jacobians::visits-every-nested-object-once', W, {'appends': len(appends), 'value_loops': len(loops_values), 'list_loops': len(loops_list)},
+                "create_jacobians must have one recursive loop over list elements, one over dict values, and append the id of a TransformedParameter once")
+        return
+    app_stmt = appends[0]
+    while not isinstance(app_stmt, ast.stmt):
+        app_stmt = app_stmt._parent
+    n_app, n_vals, n_list = cfg.node_of(app_stmt), cfg.node_of(loops_values[0]), cfg.node_of(loops_list[0])
+    appended_id = q(appends[0].args[0]) == f"{data}['id']"
+    # results of the recursive calls are kept
+    kept = all(isinstance(getattr(c, '_parent', None), ast.Call) and isinstance(c._parent.func, ast.Attribute) and c._parent.func.attr in ('extend',) for c in rec_calls)
+    table = {}
+    ok_visit = ok_select = ok_skip = True
+    for is_list, is_dict, T, F, S in itertools.product([True, False], repeat=5):
+        if is_list and is_dict:
+            continue
+        texts = {A_list: is_list, A_dict: is_dict}
+        for name, val in (('T', T), ('F', F), ('S', S)):
+            for t in atoms[name]:
+                texts[t] = val
+        env = Env(jm, set(), {}, {}, {})
+        env.texts = texts
+        # Env.test normalises with norm_text; make the lookup quote-insensitive
+        env.texts = {k: v for k, v in texts.items()}
+        succ = {}
+        for n in cfg.nodes:
+            outs = list(n.succ)
+            if n.kind == 'test' and isinstance(n.stmt, ast.If):
+                v = _eval_test(n.stmt.test, texts)
+                if v is not None:
+                    keep = 'true' if v else 'false'
+                    outs = [m for m in n.succ if cfg.edge_label.get((n.id, m.id)) in (keep, 'both', None, 'exc')]
+            succ[n.id] = outs
+        live = reach_from(succ, [cfg.entry.id], {n.id: n for n in cfg.nodes}) | {cfg.entry.id}
+        # every path to the exit under this assignment
+        if is_dict:
+            # must pass the value loop: exit not reachable when the loop node is removed
+            succ2 = {k: [m for m in v if m.id != n_vals.id] for k, v in succ.items()}
+            live2 = reach_from(succ2, [cfg.entry.id], {n.id: n for n in cfg.nodes})
+            if cfg.exit.id in live2:
+                ok_visit = False
+                table[f"dict,T={T},F={F},S={S}"] = 'a path returns without visiting the values'
+            want_app = T and not (F and S)
+            got_app = n_app.id in live
+            if T and got_app != want_app:
+                ok_skip = False
+                table[f"dict,T={T},F={F},S={S}"] = f"appended={got_app}, expected {want_app}"
+            if not T and got_app:
+                ok_select = False
+        elif is_list:
+            succ2 = {k: [m for m in v if m.id != n_list.id] for k, v in succ.items()}
+            if cfg.exit.id in reach_from(succ2, [cfg.entry.id], {n.id: n for n in cfg.nodes}):
+                ok_visit = False
+                table['list'] = 'a path returns without visiting the elements'
+            if n_app.id in live:
+                ok_select = False
+    rep.check('C19.J', 'create_jacobians::visits-every-nested-object-once', ok_visit and kept and appended_id, W, {'cases': table, 'results_kept': kept},
+              "create_jacobians must descend into every list element and every value of every dict on every path (also below a transformed parameter that is "
+              "itself skipped) and keep what the recursive calls return: otherwise the log-Jacobian of a nested transform is missing from joint.jacobian")
+    rep.check('C19.J', 'create_jacobians::skips-only-unit-scale-affine', ok_skip, W, {'cases': table},
+              "the id of a TransformedParameter must be appended unless its transform is AffineTransform with scale 1.0 (the only one with zero log-Jacobian)")
+    rep.check('C19.J', 'create_jacobians::matches-TransformedParameter', ok_select, W, {'cases': table},
+              "only objects whose type is 'TransformedParameter' contribute a Jacobian term")
+
+
+def _eval_test(t, texts):
+    if isinstance(t, ast.BoolOp):
+        vals = [_eval_test(v, texts) for v in t.values]
+        if isinstance(t.op, ast.And):
+            if any(v is False for v in vals):
+                return False
+            return True if all(v is True for v in vals) else None
+        if any(v is True for v in vals):
+            return True
+        return False if all(v is False for v in vals) else None
+    if isinstance(t, ast.UnaryOp) and isinstance(t.op, ast.Not):
+        v = _eval_test(t.operand, texts)
+        return None if v is None else (not v)
+    return texts.get(ast.unparse(t).replace('"', "'"))
 
 
 # ---------------------------------------------------------------------------
 # make_unconstrained
 # ---------------------------------------------------------------------------
 TRANSFORM_FOR = {'unit-interval': 'SigmoidTransform', 'lower>0': 'AffineTransform', 'lower<=0': 'ExpTransform', 'simplex': 'StickBreakingTransform'}
+
+
+def x_tensor_values(body) -> list:
+    """expressions that end up as json_object['x']['tensor'] in this branch"""
+    out = []
+    local = {}
+    for b in body:
+        for st in ast.walk(b):
+            if isinstance(st, ast.Assign) and len(st.targets) == 1 and isinstance(st.targets[0], ast.Name):
+                local.setdefault(st.targets[0].id, []).append(st.value)
+    for b in body:
+        for st in ast.walk(b):
+            if not (isinstance(st, ast.Assign) and len(st.targets) == 1 and isinstance(st.targets[0], ast.Subscript)):
+                continue
+            t = st.targets[0]
+            txt = ast.unparse(t).replace('"', "'")
+            vals = []
+            if txt.endswith("['x']['tensor']"):
+                vals = [st.value]
+            elif txt.endswith("['x']") and isinstance(st.value, ast.Dict):
+                vals = [v for k, v in zip(st.value.keys, st.value.values) if isinstance(k, ast.Constant) and k.value == 'tensor']
+            for v in vals:
+                if isinstance(v, ast.Name) and v.id in local:
+                    out += local[v.id]
+                else:
+                    out.append(v)
+    return out
+
+
+def inverse_verdict(module, v, kind, tname):
+    """(ok, why): is `v` the inverse of the branch's transform applied to the requested value json_object['tensor']?"""
+    from props.c08_integrals import Sym
+    from sa.poly import Rat, ToRat
+    e = v
+    while True:
+        if isinstance(e, ast.Call) and isinstance(e.func, ast.Attribute) and e.func.attr in ('tolist', 'item', 'clone', 'detach') and not e.args:
+            e = e.func.value
+        else:
+            break
+    mentions_requested = any(isinstance(x, ast.Subscript) and isinstance(x.slice, ast.Constant) and x.slice.value == 'tensor' for x in ast.walk(e))
+    if isinstance(e, ast.Call) and isinstance(e.func, ast.Attribute) and e.func.attr == 'inv' and isinstance(e.func.value, ast.Name) and e.func.value.id == 'transform':
+        return (mentions_requested, '' if mentions_requested else f"`{ast.unparse(v)[:60]}` does not start from the requested value")
+    # a hand-written inverse: verify forward(v) == p algebraically
+    sym = Sym()
+
+    def ev(x, env):
+        if isinstance(x, ast.Constant) and isinstance(x.value, (int, float)):
+            from fractions import Fraction
+            return Rat.const(Fraction(str(x.value)))
+        if isinstance(x, ast.Name) and x.id in env:
+            return env[x.id]
+        if isinstance(x, ast.Subscript) and isinstance(x.slice, ast.Constant) and x.slice.value == 'tensor':
+            return Rat.sym('p')
+        if isinstance(x, ast.Subscript) and 'LOWER' in ast.unparse(x.slice):
+            return Rat.sym('L')
+        if isinstance(x, ast.UnaryOp) and isinstance(x.op, ast.USub):
+            return -ev(x.operand, env)
+        if isinstance(x, ast.BinOp):
+            a, b = ev(x.left, env), ev(x.right, env)
+            if isinstance(x.op, ast.Add):
+                return a + b
+            if isinstance(x.op, ast.Sub):
+                return a - b
+            if isinstance(x.op, ast.Mult):
+                return a * b
+            if isinstance(x.op, ast.Div):
+                return a / b
+        if isinstance(x, ast.Call):
+            name = (dotted_name(x.func) or (x.func.attr if isinstance(x.func, ast.Attribute) else '')).split('.')[-1]
+            recv = x.func.value if isinstance(x.func, ast.Attribute) and not (isinstance(x.func.value, ast.Name) and x.func.value.id in ('torch', 'math', 'np', 'numpy')) else None
+            arg0 = recv if recv is not None else (x.args[0] if x.args else None)
+            if name in ('tensor', 'as_tensor', 'float', 'tolist', 'item') and arg0 is not None:
+                return ev(arg0, env)
+            if name == 'log' and arg0 is not None:
+                return sym.log(ev(arg0, env))
+            if name == 'log1p' and arg0 is not None:
+                return sym.log(Rat.const(1) + ev(arg0, env))
+            if name == 'exp' and arg0 is not None:
+                return exp_of(ev(arg0, env))
+            if name == 'expm1' and arg0 is not None:
+                return exp_of(ev(arg0, env)) - Rat.const(1)
+            if name == 'logit' and arg0 is not None:
+                a = ev(arg0, env)
+                return sym.log(a) - sym.log(Rat.const(1) - a)
+            if isinstance(x.func, ast.Name) and x.func.id in module.functions:
+                h = module.functions[x.func.id]
+                rets = [n for n in ast.walk(h) if isinstance(n, ast.Return)]
+                params = [a.arg for a in h.args.args]
+                if len(rets) == 1 and len(params) == len(x.args):
+                    return ev(rets[0].value, {p_: ev(a, env) for p_, a in zip(params, x.args)})
+        raise Unsupported(x, f"`{ast.unparse(x)[:50]}` outside the inverse vocabulary")
+
+    def exp_of(arg):
+        """exp with exp(c·log q) = q^c for integer c"""
+        if len(arg.den) != 1 or () not in arg.den:
+            return sym.exp(arg)
+        d = arg.den[()]
+        factor = Rat.const(1)
+        rest = Rat.const(0)
+        for mono, c in arg.num.items():
+            c = c / d
+            if len(mono) == 1 and mono[0][0] in sym.logs and mono[0][1] == 1 and c.denominator == 1:
+                q_ = sym.logs[mono[0][0]]
+                n_ = int(c)
+                factor = factor * (q_ ** n_ if n_ >= 0 else (Rat.const(1) / q_) ** (-n_))
+            else:
+                rest = rest + Rat({mono: c})
+        return factor if rest.is_zero() else factor * sym.exp(rest)
+    try:
+        g = ev(e, {})
+        p_ = Rat.sym('p')
+        if kind == 'unit-interval':
+            fwd = Rat.const(1) / (Rat.const(1) + exp_of(-g))
+        elif kind == 'lower<=0':
+            fwd = exp_of(g)
+        elif kind == 'lower>0':
+            fwd = g + Rat.sym('L')
+        else:
+            return (False, f"`{ast.unparse(v)[:60]}` is not {tname}().inv(…) and no closed form is known for this transform")
+        ok = sym.equal(fwd, p_)
+        return (ok, '' if ok else f"`{ast.unparse(v)[:60]}` maps the requested value p to x with {tname}(x) = {repr(fwd)[:80]} ≠ p")
+    except Unsupported as u:
+        return (False, f"`{ast.unparse(v)[:60]}`: {u}")
 
 
 def check_make_unconstrained(ctx, rep):
@@ -418,14 +739,16 @@ def check_make_unconstrained(ctx, rep):
                    for b in body for st in ast.walk(b))
         tdef = [st for st in body if isinstance(st, ast.Assign) and isinstance(st.targets[0], ast.Name) and st.targets[0].id == 'transform']
         same_transform = bool(tdef) and isinstance(tdef[0].value, ast.Call) and (dotted_name(tdef[0].value.func) or '').split('.')[-1] == tname
-        inv_calls = [c for b in body for c in ast.walk(b) if isinstance(c, ast.Call) and isinstance(c.func, ast.Attribute) and c.func.attr == 'inv'
-                     and isinstance(c.func.value, ast.Name) and c.func.value.id == 'transform']
-        inits_from_requested = bool(inv_calls) and all(any(isinstance(x, ast.Subscript) and isinstance(x.slice, ast.Constant) and x.slice.value == 'tensor' for x in ast.walk(c))
-                                                        for c in inv_calls)
+        # every value that becomes the tensor of x: stores json_object['x']['tensor'] = V and the 'tensor' entry of the literal assigned to json_object['x']
+        stores = x_tensor_values(body)
+        verdicts = [inverse_verdict(um, v, kind, tname) for v in stores]
+        inits_from_requested = bool(stores) and all(vd[0] for vd in verdicts)
+        why_not = [vd[1] for vd in verdicts if not vd[0]]
         rep.check('C19.U', key + '::initial-value-through-the-same-inverse', sets_type and dels and same_transform and inits_from_requested, W,
-                  {'switches_type': sets_type, 'deletes_constrained_tensor': dels, 'inverse_of_same_transform': same_transform, 'initialised_from_requested_value': inits_from_requested},
-                  f"branch for {kind}: the unconstrained parameter must be initialised with {tname}().inv(requested constrained value) and the constrained 'tensor' removed, so "
-                  f"that the initial constrained value equals the one requested")
+                  {'switches_type': sets_type, 'deletes_constrained_tensor': dels, 'inverse_of_same_transform': same_transform, 'stores_checked': len(stores),
+                   'not_the_inverse': why_not},
+                  f"branch for {kind}: every value stored as the unconstrained tensor must be {tname}'s inverse of the requested constrained value and the constrained 'tensor' "
+                  f"removed, so that the initial constrained value equals the one requested" + (f"; {why_not[0]}" if why_not else ''))
         if kind == 'lower>0':
             # affine shift by the lower bound with scale 1, then the shifted parameter is itself made positive
             par = [st for st in body if isinstance(st, ast.Assign) and isinstance(st.targets[0], ast.Subscript) and isinstance(st.targets[0].slice, ast.Constant)
